@@ -65,6 +65,7 @@ fn main() {
     "C20" => dispatch!(props::c20::C20),
     "C21" => dispatch!(props::c21::C21),
     "C22" => dispatch!(props::c22::C22),
+    "C26" => dispatch!(props::c26::C26),
     "C30" => dispatch!(props::c30::C30),
     other => {
       eprintln!("no check for property {other}");
